@@ -723,7 +723,7 @@ func c11ScaleBucket(p int) string {
 }
 
 func c11ScaleSuite(r *Result, rng *rand.Rand, tier string) {
-	fams := []string{"U", "S", "C", "R", "N"}
+	fams := []string{"U", "S", "C", "R", "N", "E"}
 	over := []int{501, 1200, 640}
 	under := []int{500, 3, 499}
 	type plan struct {
